@@ -85,7 +85,7 @@ def items(run, rng):
     for qc in QUERY_CLASSES:
         ctx = qc.SQL_CONTEXT
         name = QNAMES[qc]
-        for l, o, ob, how, pos in itertools.product(vals, vals, [False, True], ORDERS, ["top", "sub", "setop", "setop-sub", "where", "over-ordered-sub", "in-ordered-sub", "orderby-text"]):
+        for l, o, ob, how, pos in itertools.product(vals, vals, [False, True], ORDERS, ["top", "sub", "setop", "setop-sub", "setop-base-ordered", "where", "over-ordered-sub", "in-ordered-sub", "orderby-text"]):
             tb = t()
             try:
                 if pos in ("top", "sub", "where", "over-ordered-sub", "in-ordered-sub", "orderby-text"):
@@ -114,6 +114,8 @@ def items(run, rng):
                     b = qc.from_(u).select(u.a)
                     if pos == "setop-sub":
                         b = b.limit(1)
+                    if pos == "setop-base-ordered":
+                        a = a.orderby(tb.a).limit(5)      # the FIRST operand's own ORDER BY (inside its parentheses) is not the set operation's
                     q = a.union(b)
                     if ob:
                         q = q.orderby(tb.a)
@@ -163,7 +165,7 @@ def check(run: core.Run):
              "are checked against the value list. Non-trivial = distinct statements.",
         assumptions=["Ref/RowLimit.v is the row-limiting grammar of each dialect (sources cited there)",
                      "the generic Query class is judged by the PostgreSQL form (LIMIT n / OFFSET m each optional)"],
-        extra_cov={"builder_state_mismatches": len(OPS_FAIL), "exhaustive": True, "exhaustive_part": "(absent|0|positive)^2 x ORDER BY x 5 call patterns x 8 positions x 6 classes x 2 modes"})
+        extra_cov={"builder_state_mismatches": len(OPS_FAIL), "exhaustive": True, "exhaustive_part": "(absent|0|positive)^2 x ORDER BY x 5 call patterns x 9 positions x 6 classes x 2 modes"})
 
 
     for f in OPS_FAIL[:3]:
